@@ -15,8 +15,12 @@ META = dict(
                "out_edges / in_edges in order, edge_count_from / edge_count_to = abstract degrees with a self-loop on both sides, edge endpoints all equal the abstract "
                "graph), C08_abs_unique, and the lifting to ALL histories C08_history_refines / C08_history_sim (for every list of sign-correct operations from the empty "
                "graph: never out of fuel, every returned id accepted by the acceptor specification C08_astep_def, final graph well-formed and observably the abstract "
-               "graph); wf-only corollaries C08_wf_preserved, C08_wf_adjacency, C08_wf_edge_ends. DbImpl level (theories/DbCascadeProofs.v): see C08_db_cascade* in "
-               "coq/Props/C08.v for what is proved about remove_id (node, incident edges, their key-value lists, the alias). Ids are assumed to carry the sign of "
+               "graph); wf-only corollaries C08_wf_preserved, C08_wf_adjacency, C08_wf_edge_ends. DbImpl level (theories/DbCascadeProofs.v, full, under the "
+               "hypothesis that the db's graph is wf): C08_db_cascade / C08_db_cascade_alias (remove_id / remove by alias of a node never fails; afterwards the node "
+               "and every incident edge are no longer elements, their key-value lists are empty, the alias does not resolve, no element appeared, node count - 1), "
+               "C08_db_cascade_edge, C08_db_remove_total, C08_db_mutations_wf (insert_node_db / insert_edge_db / remove_id keep the graph wf; that EVERY query of "
+               "Queries.v, incl. rollback, only reaches the graph through these is not proved as one theorem - it is covered by the differential runs). "
+               "Ids are assumed to carry the sign of "
                "their kind, which DbImpl guarantees via graph_index (C08_raw_negative_endpoint_witness shows the raw GraphImpl API needs it). The model is tied to "
                "/repo on every run by executing generated histories of node/edge inserts and removals (with id reuse, self-loops, parallel edges, failing inserts) on "
                "the real database and on the extracted model and comparing every query result and periodic full dumps.",
